@@ -98,7 +98,8 @@ Definition check_case (c : case) : list N :=
   match c with
   | CExtract tp ts o o0 =>
       flag (obs_eqb (model_obs tp ts) o && obs_eqb (model_obs tp []) o0) V_MISMATCH ++
-      flag (obs_ok o && obs_ok o0 && ids_eqb (obs_ids o) (obs_ids o0)) V_SPECFAIL ++
+      flag (obs_ok o && obs_ok o0 && ids_eqb (obs_ids o) (obs_ids o0) &&
+            (negb (forbidden_version tp) || (obs_eqb o ObsNone && obs_eqb o0 ObsNone))) V_SPECFAIL ++
       flag (obs_ok (model_obs tp ts)) V_MODELSPEC
   | CRound t s fl ts ts_orig itp its o =>
       let valid := negb (all_zero t) && negb (all_zero s) in
